@@ -169,6 +169,39 @@ Theorem c04_body_hash_framing_independent : forall hmac_b64 sha_hex url_parse to
 Proof. exact verify_framing. Qed.
 Print Assumptions c04_body_hash_framing_independent.
 
+(* long client keys: the RSA-encrypted secret may span any number of PKCS#1 v1.5 blocks. rsaBase.crypt (transcribed as
+   crypt, bytesLimit = k) decrypts a sequence of full k-byte blocks to the concatenation of the pieces' plaintexts ... *)
+Theorem c04_rsa_multiblock : forall k block_dec (blocks : list (bytes * bytes)) fuel,
+  (forall b p, In (b, p) blocks -> b <> [] /\ List.length b = k /\ block_dec b = Some p) ->
+  (List.length blocks <= fuel)%nat ->
+  crypt k block_dec fuel (List.concat (map fst blocks)) = Some (List.concat (map snd blocks)).
+Proof. exact crypt_blocks. Qed.
+Print Assumptions c04_rsa_multiblock.
+
+(* encrypted bodies (type=1): the size limit of cryptohandler.decryptBody refuses only bodies ABOVE 1 MiB. For a request
+   that parsed and verified, announces type=1 and carries a body: above the limit -> 400 without handler; at or below it
+   the body's own decryption decides, and on success the handler runs on the decrypted body *)
+Theorem c04_enc_size_boundary : forall decryptors rsa_dec b64_dec hmac_b64 sha_hex url_parse ecb strict tol now r h,
+  method_checked r = true ->
+  parse_content_security decryptors rsa_dec b64_dec r = inl h ->
+  verify_signature hmac_b64 sha_hex url_parse tol now r h = code_pass ->
+  0 < r_clen r -> h_ctype h = encryption_type ->
+  let gate := content_security_gate decryptors rsa_dec b64_dec hmac_b64 sha_hex url_parse (decrypt_body ecb) strict tol now r in
+  let dec := sees_decrypted_body decryptors rsa_dec b64_dec hmac_b64 sha_hex url_parse (decrypt_body ecb) tol now r in
+  (1048576 < r_clen r -> gate = mks 400 false SigNone false /\ dec = false) /\
+  (r_clen r <= 1048576 -> ecb (h_key h) r = DecOk -> gate = ran_ok /\ dec = true) /\
+  (r_clen r <= 1048576 -> ecb (h_key h) r = DecErr -> gate = mks 400 false SigNone false /\ dec = false).
+Proof.
+  intros decryptors rsa_dec b64_dec hmac_b64 sha_hex url_parse ecb strict tol now r h Hm Hp Hv Hc Ht.
+  unfold content_security_gate, sees_decrypted_body, method_checked in *. rewrite Hm, Hp, Hv, Ht.
+  rewrite !Z.eqb_refl. assert (0 <? r_clen r = true) as -> by (apply Z.ltb_lt; assumption).
+  cbn [negb andb]. unfold decrypt_body, max_bytes.
+  destruct (Z.ltb_spec 1048576 (r_clen r)) as [L|L].
+  - split; [intros _; split; reflexivity|]. split; intros; lia.
+  - split; [intros; lia|]. split; intros _ E; rewrite E; split; reflexivity.
+Qed.
+Print Assumptions c04_enc_size_boundary.
+
 (* the gate panics only inside cryptohandler's body decryption of a request whose signature verified;
    if decryptBody never panics (body_dec never DecPanic) the gate never does *)
 Theorem c04_gate_panic_iff : forall decryptors rsa_dec b64_dec hmac_b64 sha_hex url_parse body_dec strict tol now r,
@@ -317,6 +350,21 @@ Theorem c04_rpc_not_found_no_memory : forall strict steps later cache,
   map (fun _ => if strict then rpc_internal else rpc_ok) steps ++ run_rpc strict cache later.
 Proof. exact unknown_apps_no_effect. Qed.
 Print Assumptions c04_rpc_not_found_no_memory.
+
+(* the breaker interceptor sits in front of the authorize interceptor and classifies its answers with codes.Acceptable: of the
+   answers Authenticate can give only Internal counts as a breaker failure, so any burst of Unauthenticated answers (wrong or
+   missing tokens) adds NO failure to the method's breaker and cannot make it refuse later calls *)
+Theorem c04_rpc_rejections_acceptable : forall strict cache store md,
+  let c := snd (authenticate strict cache store md) in
+  (c = rpc_ok \/ c = rpc_unauthenticated \/ c = rpc_internal) /\
+  (codes_acceptable c = false <-> c = rpc_internal).
+Proof. intros. split; [apply authenticate_codes | apply auth_answer_acceptable]. Qed.
+Print Assumptions c04_rpc_rejections_acceptable.
+
+Theorem c04_rpc_burst_no_breaker_failures : forall codes,
+  (forall c, In c codes -> c = rpc_ok \/ c = rpc_unauthenticated) -> breaker_failures codes = 0%nat.
+Proof. exact rejections_no_breaker_failures. Qed.
+Print Assumptions c04_rpc_burst_no_breaker_failures.
 
 (* the interceptors: neither the method name nor unary/stream enters the decision, and the handler runs iff the
    call is accepted (code OK) *)
